@@ -18,7 +18,7 @@ vars == <<desc, term, dense, pc>>
 N == 4
 Cls == <<"Dense", "Diag", "ConstDiag", "Identity", "Toeplitz", "Chol", "Kron", "KronDiag", "KronAddedDiag", "SumKron", "AddedDiag",
          "LRRAddedDiag", "Sum", "PsdSum", "ConstMul", "BlockDiag", "BlockInter", "BatchRepeat", "Tri", "AddedDiagI", "LRRAddedDiagI", "User",
-         "AddedDiagRootConst", "AddedDiagBig", "DenseBig", "KronCholU", "BlockDiagCholU", "CholKronTriU", "TriRepeat", "AddedDiagKBc", "KronAddedKronDiag", "MixedSpectrum", "BlockInterDiag", "CholDiag">>
+         "AddedDiagRootConst", "AddedDiagBig", "DenseBig", "KronCholU", "BlockDiagCholU", "CholKronTriU", "TriRepeat", "AddedDiagKBc", "KronAddedKronDiag", "MixedSpectrum", "BlockInterDiag", "CholDiag", "KronAddedKronConstDiag">>
 \* matrix size per class: the "Big" families are large enough for CG / Lanczos to need more than 10 iterations
 NOf(c) == IF c = "AddedDiagBig" THEN 24 ELSE IF c = "DenseBig" THEN 12 ELSE 4
 Batches == << <<>>, <<2>> >>
@@ -47,7 +47,7 @@ Init ==
        /\ ((ci * 7 + bi + CfgId(c)) % NParts = Part)
        /\ (Cls[ci] = "MixedSpectrum" => Batches[bi] = <<2>>)
        /\ (Tier = "quick" => ((ci + bi + CfgId(c)) % 4 = 0 \/ CfgId(c) \in {0, 63 - 32, 3 + 4}
-                              \/ (Cls[ci] \in {"AddedDiagRootConst", "AddedDiagBig", "DenseBig", "KronCholU", "BlockDiagCholU", "CholKronTriU", "AddedDiagKBc", "KronAddedKronDiag", "MixedSpectrum"} /\ CfgId(c) % 2 = 1 /\ ~c.memory_efficient)
+                              \/ (Cls[ci] \in {"AddedDiagRootConst", "AddedDiagBig", "DenseBig", "KronCholU", "BlockDiagCholU", "CholKronTriU", "AddedDiagKBc", "KronAddedKronDiag", "KronAddedKronConstDiag", "MixedSpectrum"} /\ CfgId(c) % 2 = 1 /\ ~c.memory_efficient)
                               \/ (Cls[ci] \in {"AddedDiagBig", "DenseBig"} /\ CfgId(c) \in {6, 14, 22})))
        /\ desc = [cls |-> Cls[ci], b |-> Batches[bi], cfg |-> c, cfgid |-> CfgId(c), id |-> (ci * 4 + bi) * 64 + CfgId(c),
                   dt |-> IF (ci + CfgId(c)) % 3 = 0 THEN "f32" ELSE "f64", seed |-> ci * 13 + bi * 5,
